@@ -1,15 +1,19 @@
 #!/usr/bin/env python3
 """ad-hoc sensitivity test: tools/trymut.py <check id> <file under /repo> <old text> <new text>
 replaces the first occurrence, runs the quick check without evidence, restores /repo (git checkout)."""
-import subprocess, sys, collections
+import os, subprocess, sys, collections
+# TRYMUT_REPO: a scratch worktree of /repo (so that /repo itself is never touched while other runs use it); <file> is relative to it
+REPO = os.environ.get("TRYMUT_REPO", "/repo")
 cid, path, old, new = sys.argv[1:5]
+if not os.path.isabs(path):
+    path = os.path.join(REPO, path)
 s = open(path).read()
 if old not in s:
     print("pattern not found"); sys.exit(2)
 open(path, "w").write(s.replace(old, new, 1))
 try:
-    r = subprocess.run(["./check", cid, "--tier", "quick", "--no-evidence"], cwd="/verif", capture_output=True, text=True, env={**__import__("os").environ, "VERIF_REPLAY_DIR": "/tmp/trymut-replays"})
+    r = subprocess.run(["./check", cid, "--tier", "quick", "--no-evidence"], cwd="/verif", capture_output=True, text=True, env={**os.environ, "VERIF_REPLAY_DIR": "/tmp/trymut-replays", "VERIF_REPO": REPO})
     c = collections.Counter(l.strip()[:160] for l in r.stdout.splitlines() if l.strip().startswith("what:") or l.startswith(("HELD", "INCONCLUSIVE")))
     print(f"rc={r.returncode}", dict(c))
 finally:
-    subprocess.run(["git", "-C", "/repo", "checkout", "--", "."])
+    subprocess.run(["git", "-C", REPO, "checkout", "--", "."])
